@@ -55,8 +55,8 @@ PROPOSED_KNOWN = [
     {"kind": "known", "signature": {"fam": "panicflow", "cause": "recovered-pop-miscount", "explained": True},
      "what": "after a recover nextCall pops panics until their number equals the number of panicked frames; a frame whose panic was "
              "aborted by a newer panic of one of its deferred calls holds two panics, so an active panic is popped too: "
-             "defer f2(); defer f3(); panic(1) | f2: defer f4(); panic(2) | f3: panic(3) | f4: recover() returns PanicError 1 "
-             "instead of 3 (chain 3, 1)"},
+             "main: defer f2(); defer f3(); panic(1) | f3: panic(2) | f2: defer f4(); panic(1) | f4: recover() - Run returns "
+             "PanicError 1 with no chain instead of PanicError 2 with chain (2)(1) (gc: panic: 1, panic: 2)"},
     {"kind": "known", "signature": {"fam": "panicflow", "cause": "native-defer-raises-at-return", "got": "hostpanic"},
      "what": "a directly deferred native call that panics or calls Fatal when the function returns normally (defer panic(2); "
              "defer ext.Fatal(v)) leaves Run as a host panic (with 2 / with a *fatalError wrapping v) instead of a *PanicError / v: "
@@ -120,7 +120,7 @@ def model_check(ctx, cfgs):
     return cases, r
 
 
-def judge(ctx, step, records, per_sig=10):
+def judge(ctx, step, records, per_sig=6):
     """Trace_PanicFlow over the records, sharded and in parallel.  Returns (bad entries, stats)."""
     size = min(SHARD, max(400, -(-len(records) // 8)))
     shards = [records[i:i + size] for i in range(0, max(len(records), 1), size)]
@@ -334,7 +334,7 @@ def run(ctx, only_cases=None):
                        model_counterexample=dict(model))
         if not ctx.quick:
             ctx.cov["actions_never_taken"] = r.coverage_zero()
-        extra = ctx.pick(400, 12000)
+        extra = ctx.pick(400, 8000)
     else:
         cases, extra, by_prog = only_cases, 0, {}
     lap("model_check")
@@ -347,9 +347,8 @@ def run(ctx, only_cases=None):
     allobs = rig.read_ndjson(obs)
     nruns = sum(1 for o in allobs for r in o["runs"] if r["built"])
     notbuilt = collections.Counter(r["variant"] for o in allobs for r in o["runs"] if not r["built"])
-    strange = sum(1 for o in allobs for r in o["runs"] if r.get("strange"))
-    if strange:
-        raise Infra(f"{strange} runs logged values the recorder does not understand (driver/concretiser problem)")
+    # values that are not ints (a recover() result of another type is logged as 199 and judged like any other output)
+    ctx.cov["runs_with_unrecognised_values"] = sum(1 for o in allobs for r in o["runs"] if r.get("strange"))
     for v in vs:
         if notbuilt.get(v, 0) > 0:
             ex_ = next(r for o in allobs for r in o["runs"] if r["variant"] == v and not r["built"])
